@@ -5,3 +5,8 @@ import RepidProofs.Props.C05
 import RepidProofs.Props.C12
 import RepidProofs.Props.C14
 import RepidProofs.Props.C15
+import RepidProofs.Props.C02
+import RepidProofs.Props.C04
+import RepidProofs.Props.C06
+import RepidProofs.Props.C13
+import RepidProofs.Props.C16
